@@ -156,17 +156,22 @@ Proof.
   rewrite N.eqb_refl. cbv iota. rewrite (utf8_decode_ascii _ Ha), Hw, Hn, text_lines_spec. reflexivity.
 Qed.
 
-(* ... and one in the built-in JSON format hands exactly its text to json.loads (the harness applies Python's json.loads
-   to the marked text; a dict is merged, any other value is shown under "Data") *)
+(* ... and one in the built-in JSON format is what json.loads (Model/JsonLoads.v) makes of exactly its text: an object is
+   merged into the section, any other value is shown under "Data", text that is not JSON is hex dumped *)
 Theorem builtin_json_spec e c h cr txt :
   (is_bmc cr && (h_comp h =? 8192)) = true -> h_sub h = UserDataFormat_json ->
   Forall (fun x => x < 128) txt -> strip_ws txt = txt -> rstrip_nul txt = txt ->
   render_ud e c h cr txt =
-    Some (base_fields e h cr (L "Created by") ++ [(L "@loads", JStr txt); (L "@fallback", jstrs (hexdump txt))]).
+    match JsonLoads.loads txt with
+    | JsonLoads.LOk (JObj l) => Some (obj_update (base_fields e h cr (L "Created by")) l)
+    | JsonLoads.LOk j => Some (obj_set (base_fields e h cr (L "Created by")) (L "Data") j)
+    | JsonLoads.LError => Some (obj_set (base_fields e h cr (L "Created by")) (L "Data") (jstrs (hexdump txt)))
+    | JsonLoads.LBeyond => Some (base_fields e h cr (L "Created by") ++ [(L "@loads", JStr txt); (L "@fallback", jstrs (hexdump txt))])
+    end.
 Proof.
   intros Hb Hs Ha Hw Hn. unfold render_ud, ud_value_of. rewrite Hb. unfold builtin_value. rewrite Hs.
   rewrite N.eqb_refl. cbv iota. rewrite (utf8_decode_ascii _ Ha), Hw, Hn. cbn [merge_value].
-  assert (utf8_encode txt = Some txt) as ->; [|reflexivity].
+  assert (utf8_encode txt = Some txt) as ->; [|destruct (JsonLoads.loads txt) as [[]| |]; reflexivity].
   clear - Ha. induction Ha as [|x t Hx Ht IH]; [reflexivity|]. cbn [utf8_encode]. unfold utf8_encode_cp.
   assert ((x <? 128) = true) as -> by (apply N.ltb_lt; exact Hx). rewrite IH. reflexivity.
 Qed.
